@@ -105,6 +105,10 @@ func (m *Model) applyList(o Op) Exp {
 		if !ok {
 			return Exp{R: rArr()}
 		}
+		if t-s+1 > maxBulkRead {
+			m.dev("D16")
+			return Exp{R: rErr("too much batch size")}
+		}
 		return Exp{R: rBulks(e.l[s : t+1])}
 	case "lset":
 		idx, ok := parseInt(o.A[0])
